@@ -31,6 +31,7 @@ cls("DocAttrStep", FDS, {"attr": "str", "value": "val"}, bases=["Step"])
 
 # ---- what any Mappable answers (StepMap and Mapping both implement it; their own contracts in
 # transform_map.py say what these are for a step map / a mapping)
+spec_file(os.path.join(os.path.dirname(os.path.dirname(os.path.abspath(__file__))), "spec", "stepspec.py"))
 abstract("mpos", ["Mappable", "int", "int"], "int")
 abstract("mdelinfo", ["Mappable", "int", "int"], "int")
 contract(FMAP, "Mappable.map", {"self": "Mappable", "pos": "int", "assoc": "int"}, returns="int",
